@@ -720,6 +720,15 @@ def hang_site(err):
     return ">".join(keep[-2:])
 
 
+def hang_key(prog, at, site):
+    """site + minimal program class: did a non-write request precede the call that hangs?"""
+    upto = prog[:at + 1] if at is not None else prog
+    mixed = any(st not in ("w1", "w101") for st in upto[:-1])
+    return "client-blocks-forever:%s:%s" % (site, "after-interleaved-request" if mixed
+                                            else "pipelined-writes-only" if upto[-1] in ("w1", "w101")
+                                            else "no-interleaving")
+
+
 def client_programs(tier):
     n = 3 if tier == "quick" else 4
     return [list(p) for p in enum.sequences(STEPS, n, 1)]
@@ -750,7 +759,7 @@ def run_client_chunk(item, acc):
                     at = info.get("at")
                     step = prog[at] if at is not None else "?"
                     site = hang_site(ex.error)
-                    acc.violation("client-blocks-forever:%s" % site,
+                    acc.violation(hang_key(prog, at, site),
                                   {"program": prog, "hung_in_step": [at, step], "outcome": ex.outcome,
                                    "recv_ready_answers": list(polls), "blocked": ex.deadlock_info,
                                    "choices": ex.choices}, replay)
@@ -844,7 +853,7 @@ def replay(rec):
         print("outcome:", ex.outcome, "| blocked threads:", ex.deadlock_info)
         if ex.outcome in ("deadlock", "livelock"):
             print("main thread waits in:", hang_site(ex.error))
-            return 1 if rec["key"] == "client-blocks-forever:%s" % hang_site(ex.error) else 0
+            return 1 if rec["key"] == hang_key(r["prog"], info.get("at"), hang_site(ex.error)) else 0
         return 0
     scr = Scratch()
     try:
